@@ -67,11 +67,24 @@ func (k Keeper) RecvPacket(goCtx context.Context, msg *packettypes.MsgRecvPacket
 	}
 
 	if packet.GetDstChain() == k.ClientKeeper.GetChainName(cctx) {
-		// call packet onRecvPacket
-		res, err := k.PacketKeeper.CallPacket(ctx, "onRecvPacket", packet)
-		if err != nil {
+		// call packet onRecvPacket in the cache context: its state changes are only
+		// written when the execution succeeded, otherwise they are discarded and an
+		// error acknowledgement (which makes the source chain refund) is written
+		var result packettypes.Result
+		res, err := k.PacketKeeper.CallPacket(cctx, "onRecvPacket", packet)
+		if err == nil {
+			// call onRecvPacket end then get the result to write the ack
+			if err := packetcontract.PacketContract.ABI.UnpackIntoInterface(&result, "onRecvPacket", res.Ret); err != nil {
+				return nil, sdkerrors.Wrapf(packettypes.ErrABIPack, "recv packet failed, decode result err: %s", err)
+			}
+		}
+		if err != nil || result.Code != 0 {
 			// Write ErrAck
-			errAckBz, err := packettypes.NewAcknowledgement(1, []byte{}, "receive packet callback failed", relayer, packet.FeeOption).ABIPack()
+			errAck := packettypes.NewAcknowledgement(1, []byte{}, "receive packet callback failed", relayer, packet.FeeOption)
+			if err == nil {
+				errAck = packettypes.NewAcknowledgement(result.Code, result.Result, result.Message, relayer, packet.FeeOption)
+			}
+			errAckBz, err := errAck.ABIPack()
 			if err != nil {
 				return nil, sdkerrors.Wrapf(packettypes.ErrInvalidAcknowledgement, "pack ack failed")
 			}
@@ -80,16 +93,11 @@ func (k Keeper) RecvPacket(goCtx context.Context, msg *packettypes.MsgRecvPacket
 			}
 			return &packettypes.MsgRecvPacketResponse{}, nil
 		}
-		// call onRecvPacket end then get the result to write the ack
-		var result packettypes.Result
-		if err := packetcontract.PacketContract.ABI.UnpackIntoInterface(&result, "onRecvPacket", res.Ret); err != nil {
-			return nil, sdkerrors.Wrapf(packettypes.ErrABIPack, "recv packet failed, decode result err: %s", err)
-		}
 		ackBz, err := packettypes.NewAcknowledgement(result.Code, result.Result, result.Message, relayer, packet.FeeOption).ABIPack()
 		if err != nil {
 			return nil, sdkerrors.Wrapf(packettypes.ErrInvalidAcknowledgement, "pack ack failed")
 		}
-		if err := k.PacketKeeper.WriteAcknowledgement(ctx, &packet, ackBz); err != nil {
+		if err := k.PacketKeeper.WriteAcknowledgement(cctx, &packet, ackBz); err != nil {
 			return nil, err
 		}
 	} else if _, found := k.ClientKeeper.GetClientState(ctx, packet.GetDstChain()); !found {
